@@ -17,7 +17,7 @@ pub fn spec() -> Spec {
     Spec {
         prop: "C08",
         level: "exploration",
-        rule: "Pool reference model written from the statement (per signer: next nonce, waiting map nonce -> (payload, arrival block)); after every brc20_transact and every finalise the receipts (count, consecutive indexes, nonces, sender), txpool_contentFrom and eth_getTransactionCount are compared with the model; at the end the executed nonces of every signer must be 0,1,2,... each once. Exhaustive small scope: all arrival orders of nonces {0..k-1} of a fresh signer x all gap patterns from {same block,+1,+9,+10,+11} (k=3 quick, k=4 thorough) plus duplicate / replacement / stale / far-future / wrong-chain / no-chain-id (pre-EIP-155) / undecodable variants; random beyond (3 signers, nonces to 15, interleaved inscription transactions, reorgs, clearCaches). After an expired entry is dropped the model admits both 'later entries kept' and 'later entries dropped'. Window runs: a signer parks the whole admissible window (or all but one / all but the last / a random subset) in shuffled order over one to three blocks while a second signer interferes, then the predecessor arrives. Restart/expiry runs: entries parked and committed, then a restart / clearCaches / nothing, then only empty blocks with the pool compared at every height until the entries have expired. Non-trivial = script in which >=1 transaction was parked and later drained or expired; distinct by (arrival order, gaps, variant).",
+        rule: "Pool reference model written from the statement (per signer: next nonce, waiting map nonce -> (payload, arrival block)); after every brc20_transact and every finalise the receipts (count, consecutive indexes, nonces, sender), txpool_contentFrom and eth_getTransactionCount are compared with the model; at the end the executed nonces of every signer must be 0,1,2,... each once. Exhaustive small scope: all arrival orders of nonces {0..k-1} of a fresh signer x all gap patterns from {same block,+1,+9,+10,+11} (k=3 quick, k=4 thorough) plus duplicate / replacement / stale / far-future / wrong-chain / no-chain-id (pre-EIP-155) / undecodable variants; random beyond (3 signers, nonces to 15, interleaved inscription transactions, reorgs, clearCaches). After an expired entry is dropped the model admits both 'later entries kept' and 'later entries dropped'. A third of the transactions fail when executed (revert / invalid opcode / out of gas). Window runs: a signer parks the whole admissible window (or all but one / all but the last / a random subset) in shuffled order over one to three blocks while a second signer interferes, then the predecessor arrives. Restart/expiry runs: entries parked and committed, then a restart / clearCaches / nothing, then only empty blocks with the pool compared at every height until the entries have expired. Non-trivial = script in which >=1 transaction was parked and later drained or expired; distinct by (arrival order, gaps, variant).",
         assumptions: vec!["inscription_byte_len >= raw length, so every signed transaction at the right nonce is valid and consumes its nonce".into()],
         exhaustive: false,
         min_nontrivial: 2,
@@ -166,7 +166,22 @@ impl<'a> Run<'a> {
         let block = self.d.next_height();
         self.uniq += 1;
         let payload = reuse.unwrap_or(self.uniq);
-        let data = asm::tool_call(asm::OP_SSTORE, &[asm::word_u64(3), asm::word_u64(payload)], &[]);
+        // a third of the payloads fail when executed (revert, invalid opcode, out of gas at once): a
+        // failed transaction consumes its nonce like any other, the chain behind it goes on
+        let data = match payload % 6 {
+            1 => asm::tool_call(asm::OP_REVERT, &[asm::word_u64(payload)], &[]),
+            3 => {
+                let mut v = asm::tool_call(asm::OP_INVALID, &[], &[]);
+                v.extend_from_slice(&payload.to_be_bytes());
+                v
+            }
+            5 if payload % 12 == 5 => {
+                let mut v = asm::tool_call(asm::OP_MSTORE, &[asm::word_u64(1 << 40)], &[]);
+                v.extend_from_slice(&payload.to_be_bytes());
+                v
+            }
+            _ => asm::tool_call(asm::OP_SSTORE, &[asm::word_u64(3), asm::word_u64(payload)], &[]),
+        };
         // "no-chain": signed the pre-EIP-155 way, without any chain id - not a transaction of this chain either
         let chain_ok = variant != "wrong-chain" && variant != "no-chain";
         let chain = if variant == "no-chain" { None } else { Some(if chain_ok { self.chain_id } else { 1 }) };
@@ -227,8 +242,13 @@ impl<'a> Run<'a> {
                 self.fail(rep, "receipt-nonce", format!("receipt {} of the call belongs to nonce {:?}, the pool model expects nonce {}", k, tn, n), json!({}));
                 return false;
             }
-            if rc["status"].as_str() != Some("0x1") {
-                self.fail(rep, "signed-tx-failed", format!("a signed transaction at the right nonce ({}) did not succeed", n), json!({"receipt": rc}));
+            // the payload decides whether the execution succeeds (see transact_payload); the input of
+            // the transaction tells which payload this nonce carried
+            let input = tx.ok().and_then(|t| t["input"].as_str().map(|x| x.to_lowercase())).unwrap_or_default();
+            let op = u8::from_str_radix(input.get(2..4).unwrap_or("00"), 16).unwrap_or(0);
+            let should_succeed = op == asm::OP_SSTORE;
+            if (rc["status"].as_str() == Some("0x1")) != should_succeed {
+                self.fail(rep, "signed-tx-status", format!("a signed transaction at the right nonce ({}) {} although its payload {}", n, if should_succeed { "failed" } else { "succeeded" }, if should_succeed { "is a plain storage write" } else { "reverts / is invalid / runs out of gas" }), json!({"receipt": rc}));
                 return false;
             }
         }
